@@ -23,8 +23,9 @@
   * one layer down for + and −: `dAddAssign_spec`, `dSubAssign_spec`, `dSubRev_spec` — the
     digit-level leaves (scalar split into `&[lo, hi]`, zero padding of the big operand, `__add2` /
     `sub2` / `sub2rev` of NB.Model.AddSub) return the canonical digits of the value-level leaves,
-    using C01's slice theorems.  (The analogous link for * / % needs the digit routines of
-    C02/C03 and is not made here.)
+    using C01's slice theorems.  The analogous link for * / % (digit routines of C02/C03, conversions
+    of C08), for the BigInt leaves built on them and for the whole form routing is made in
+    NB.Props.C10D (`dUScalarForm_refines`, `dIScalarForm_refines`, model NB.Model.ScalarD).
 
   NOT in the model (values are immutable): the val/ref permutations, the compound-assignment
   forwarding and the capacity/length-driven operand choice of the forwarding macros.  Those are
